@@ -29,7 +29,7 @@ PO_STOP = ["dispatchOne", "handleReceivedError", "Shutdown", "init", "resetBehav
 
 
 def po_spec(iface_recv):
-    return {"files": du.ACTOR_FILES, "depth": 6, "stop": PO_STOP, "iface": {"runTurn": iface_recv}, "track": ["schedState"],
+    return {"files": du.ACTOR_FILES, "depth": 6, "stop": PO_STOP, "iface": {"runTurn": iface_recv}, "track": ["schedState"], "scan_dir": "actor",
             "entries": [
                 {"name": "pid.doReceive", "recv": "PID", "func": "doReceive"},
                 {"name": "worker.run", "recv": "worker", "func": "run"},
@@ -152,8 +152,10 @@ def source_tie(ctx, flag_holder):
     for po in (pid_po, gr_po):
         for v in po["visited"].values():
             reached.update(v)
+    called = set(pid_po.get("called") or [])
+    # an accessor that nothing in the package calls (dead code left behind by a refactor) is not a thread program
     unmodelled = sorted({"%s uses schedState.%s" % (u["func"], u["method"]) for u in pid_po["users"].get("schedState", [])
-                         if u["func"] not in reached})
+                         if u["func"] not in reached and u["func"].split(".")[-1] in called})
     if unmodelled:
         ctx.tie_broken("schedState is accessed outside the modelled thread programs", {"accessors": unmodelled})
     model, raw = coq_model_traces(ctx, "true" if flag else "false")
@@ -355,7 +357,7 @@ def run(ctx):
     with open(os.path.join(ctx.work, "c01_ds_in.jsonl"), "w") as f:
         for c in cases:
             f.write(json.dumps(c) + "\n")
-    for fn in ("c01_ds_out.jsonl", "c01_restart_out.jsonl", "c01_stress_out.jsonl", "c01_scen_out.jsonl"):
+    for fn in ("c01_ds_out.jsonl", "c01_restart_out.jsonl", "c01_stress_out.jsonl", "c01_scen_out.jsonl", "c01_grain_out.jsonl"):
         p = os.path.join(ctx.work, fn)
         if os.path.exists(p):
             os.remove(p)
@@ -366,17 +368,25 @@ def run(ctx):
     rs = read_jsonl(os.path.join(ctx.work, "c01_restart_out.jsonl"))
     stress = read_jsonl(os.path.join(ctx.work, "c01_stress_out.jsonl"))
     scen = read_jsonl(os.path.join(ctx.work, "c01_scen_out.jsonl"))
-    if rc != 0 or len(ds) != len(cases) or not rs or not stress or not scen:
+    grain = read_jsonl(os.path.join(ctx.work, "c01_grain_out.jsonl"))
+    if rc != 0 or len(ds) != len(cases) or not rs or not stress or not scen or not grain:
         ctx.tie_broken("go-harness TestVerifC01*", out)
     if thorough_race(ctx):
+        os.makedirs(os.path.join(ctx.work, "race"), exist_ok=True)
         rc2, out2 = ctx.go_test("actor", "^TestVerifC01(Stress|Scenarios)", ["zz_verif_C01_test.go", "zz_verif_dispatchlib_test.go"],
                                 env={"VERIF_THOROUGH": "0", "VERIF_C01_ROUNDS": "1", "VERIF_OUT": os.path.join(ctx.work, "race")}, race=True, timeout=1500)
-        if rc2 != 0 and "DATA RACE" in out2:
+        if "DATA RACE" in out2:
             ctx.notes.append("-race reported a data race in the stress run (supporting evidence only): " + out2[-1500:])
 
     ds_bad = ds_oracle(ctx, ds) if ds else 0
     conf = ds_conformance(ctx, ds) if ds else None
     n_bad = report_runs(ctx, stress, scen)
+    for o in grain:
+        if o.get("err"):
+            ctx.tie_broken("grain stress could not run", o)
+        elif o["overlaps"] > 0 or o["max_concurrent"] > 1:
+            n_bad += 1
+            ctx.violation("handler-overlap:grain-stress", "two OnReceive invocations of one grain overlapped (max concurrent %d): %s" % (o["max_concurrent"], o["overlap_at"]), o)
 
     # the restart witness: model outcome under the code's variant vs the real actors
     wit = rs[0] if rs else None
@@ -415,6 +425,8 @@ def run(ctx):
                 "stress configurations (mailbox x senders x budget x GOMAXPROCS x gate noise; non-trivial = messages handled), scripted preemption scenarios S1..S6 per mailbox (non-trivial = preemption point reached), restart witness",
         "samples": [ds[len(ds) // 2] if ds else None, stress[0] if stress else None, scen[1] if len(scen) > 1 else None, wit],
         "dispatchState_cases": len(ds), "dispatchState_model_mismatches": conf[1] if conf else None, "dispatchState_oracle_failures": ds_bad,
+        "grain_runs": [{k: o.get(k) for k in ("senders", "budget", "procs", "handled", "max_concurrent")} for o in grain],
+        "stress_with_restarts": [{"cfg": o["cfg"], "handled": o["handled"], "max_concurrent": o["max_concurrent"]} for o in stress if o["cfg"].get("Restarts") or o["cfg"].get("Directive")],
         "stress_runs": len(stress), "stress_messages_handled": handled, "stress_idle_transitions_observed": idle_tr,
         "scenarios": [{"name": o["name"], "mailbox": o["mailbox"], "completed": o["completed"], "max_concurrent": o["max_concurrent"]} for o in scen],
         "overlap_findings": n_bad,
